@@ -360,14 +360,14 @@ def f_spec_variant_same(a):
 
 
 def f_spec_variant_same_api(a):
-    """white-space / case variants of the ARGUMENTS of the building and lookup entry points give the same outcome:
+    """white-space / case variants of the ARGUMENTS of the building entry points give the same outcome (C10_generate_arguments):
     args = cc, bank, account, branch, bank', account', branch'  (the primed ones are variants of the others)"""
     cc = dec(a[0])
     x, y = [dec(v) for v in a[1:4]], [dec(v) for v in a[4:7]]
+    # (the lookups BIC.from_bank_code / candidates_from_bank_code take their key as it is - they do not clean it - and are
+    #  not part of this: "498\r" is simply not a listed code)
     calls = (("generate", lambda v: str(IBAN.generate(cc, v[0], v[1], v[2]))),
-             ("from_components", lambda v: str(BBAN.from_components(cc, bank_code=v[0], account_code=v[1], branch_code=v[2]))),
-             ("from_bank_code", lambda v: str(BIC.from_bank_code(cc, v[0]))),
-             ("candidates", lambda v: [str(c) for c in BIC.candidates_from_bank_code(cc, v[0])]))
+             ("from_components", lambda v: str(BBAN.from_components(cc, bank_code=v[0], account_code=v[1], branch_code=v[2]))))
     for name, f in calls:
         o1, o2 = _outcome(lambda: f(x)), _outcome(lambda: f(y))
         if o1[:2] != o2[:2] or o1[2] != o2[2]:
